@@ -310,7 +310,7 @@ pub fn run_c11(args: &Args) -> i32 {
         use tracing_subscriber::layer::SubscriberExt;
         let _ = tracing::subscriber::set_global_default(
             tracing_subscriber::registry()
-                .with(tracing_subscriber::filter::LevelFilter::DEBUG)
+                .with(if std::env::var("VCHECK_TRACING").as_deref() == Ok("trace") { tracing_subscriber::filter::LevelFilter::TRACE } else { tracing_subscriber::filter::LevelFilter::DEBUG })
                 .with(PassWatcher)
                 .with(tracing_subscriber::fmt::layer().with_writer(MkSink)),
         );
@@ -322,8 +322,14 @@ pub fn run_c11(args: &Args) -> i32 {
                 [p.mirror(), p]
             })
             .collect();
-        positions = positions.into_iter().step_by(6).chain(keep).collect();
-        cap = 250;
+        if std::env::var("VCHECK_TRACING").as_deref() == Ok("trace") {
+            // every node formats its arguments at this level (the CLI's -vvv): a smaller sweep
+            positions = positions.into_iter().step_by(48).chain(keep).collect();
+            cap = 90;
+        } else {
+            positions = positions.into_iter().step_by(6).chain(keep).collect();
+            cap = 250;
+        }
     }
     // positions with at most two legal moves have trivially cheap passes: sweep them over six passes
     let res: Vec<(u64, u64, bool, Vec<(u64, Vec<Divergence>)>)> =
@@ -361,17 +367,21 @@ pub fn run_c11(args: &Args) -> i32 {
     // a completed search of position A, then position B with every expiry point
     let reuse_runs = if std::env::var("VCHECK_SUBRUN").is_err() && !reduced() { c11_engine_reuse(&positions, args.tier, &report) } else { 0 };
     runs += reuse_runs;
+    // non-empty repetition histories
+    let history_runs = if !reduced() { c11_with_history(args.tier, &report) } else { 0 };
+    runs += history_runs;
     // through the plugin boundary
     let (plugin_runs, plugin_positions) = if std::env::var("VCHECK_SUBRUN").is_err() { crate::plugin::c11_through_plugin(&positions, args.tier, &report) } else { (0, 0) };
     runs += plugin_runs;
-    // the same sweep (reduced) in a child process that has a tracing subscriber installed
+    // the same sweep (reduced) in two child processes that have a tracing subscriber installed (DEBUG level; TRACE level on a smaller subset)
     let mut logging_runs = 0u64;
     if std::env::var("VCHECK_SUBRUN").is_err() && !is_worker() {
+      for level in ["debug", "trace"] {
         let exe = std::env::current_exe().unwrap_or_else(|e| machinery_failure(&format!("current_exe: {e}")));
         let out = std::process::Command::new(exe)
             .args(["C11", "--tier", "quick"])
             .env("VCHECK_SUBRUN", "1")
-            .env("VCHECK_TRACING", "1")
+            .env("VCHECK_TRACING", level)
             .output()
             .unwrap_or_else(|e| machinery_failure(&format!("cannot start the logging sub-run: {e}")));
         let text = String::from_utf8_lossy(&out.stdout);
@@ -383,16 +393,17 @@ pub fn run_c11(args: &Args) -> i32 {
             }
             if let Some(rest) = line.strip_prefix("SUBRUN-COVERAGE ") {
                 seen_cov = true;
-                logging_runs = serde_json::from_str::<Value>(rest).ok().and_then(|v| v["evaluations"].as_u64()).unwrap_or(0);
+                logging_runs += serde_json::from_str::<Value>(rest).ok().and_then(|v| v["evaluations"].as_u64()).unwrap_or(0);
             }
         }
         if !seen_cov {
             // the child died: with logging enabled the search crashed the process
             report.record(
-                &[Divergence::new("with-logging-enabled:search-crashes-the-process", format!("the sub-run with a tracing subscriber ended with status {:?} and no coverage line; stderr tail: {}", out.status.code(), String::from_utf8_lossy(&out.stderr).lines().rev().take(2).collect::<Vec<_>>().join(" | ")))],
+                &[Divergence::new("with-logging-enabled:search-crashes-the-process", format!("the sub-run with a tracing subscriber ({level} level) ended with status {:?} and no coverage line; stderr tail: {}", out.status.code(), String::from_utf8_lossy(&out.stderr).lines().rev().take(2).collect::<Vec<_>>().join(" | ")))],
                 || json!({"kind": "logging-subrun"}),
             );
         }
+      }
         runs += logging_runs;
     }
     restore_panics();
@@ -406,20 +417,114 @@ pub fn run_c11(args: &Args) -> i32 {
         json!({
             "evaluations": runs,
             "distinct_nontrivial": with_pass,
-            "rule": "positions = reference BFS to depth 2 from the start (depth 1-2 from three other quiet roots), every catalogue root, every 500th (thorough: 32nd) kings+1-piece position in both colours, degenerate roots; for each position every expiry index k = 0, 1, 2, ... of a counting timeout until three deepening passes completed, the search ended by itself (mate), or the cap; each (position, k) is one complete search on a fresh Engine. Non-trivial = positions where some k lets a pass complete (so 'a pass completed => a move is returned' is exercised); the others only exercise 'no move or a legal move'.",
+            "rule": "positions = reference BFS to depth 2 from the start (depth 1-2 from three other quiet roots), every catalogue root, every 500th (thorough: 32nd) kings+1-piece position in both colours, degenerate roots; for each position every expiry index k = 0, 1, 2, ... of a counting timeout until three deepening passes completed, the search ended by itself (mate), or the cap; each (position, k) is one complete search on a fresh Engine; seven roots reached by shuffles are searched with the positions played recorded in the repetition table (root occurring up to three times, successors up to twice), every k until four passes completed or the cap. Non-trivial = positions where some k lets a pass complete (so 'a pass completed => a move is returned' is exercised); the others only exercise 'no move or a legal move'.",
             "positions": positions.len(),
             "positions_where_a_pass_completed": with_pass,
             "positions_where_no_pass_completed_below_cap": no_pass,
             "positions_explored_up_to_cap_only": capped,
             "cap_k": cap, "largest_k_reached": kmax,
             "plugin_runs": plugin_runs, "plugin_positions": plugin_positions,
-            "engine_reuse_runs": reuse_runs, "runs_with_tracing_subscriber_installed": logging_runs,
+            "engine_reuse_runs": reuse_runs, "runs_with_a_repetition_history": history_runs, "runs_with_tracing_subscriber_installed": logging_runs,
             "exhaustive": capped == 0,
             "exhaustive_note": "every k in [0, K] where K is the first k completing 3 passes; positions counted under positions_explored_up_to_cap_only were explored for k <= cap only",
             "samples": [{"fen": positions[si].to_fen(), "k": sample_k, "returned": so.as_ref().map(|o| o.mv.map(|m| ref_mv(m).uci())), "passes_completed": so.as_ref().map(|o| if o.max_depth == SENTINEL { 0 } else { o.max_depth as u32 + 1 })}],
         }),
         &["the engine polls its timeout at fixed program points, so k ranges over every instant at which expiry can be noticed", "timeouts are monotone like a deadline (non-monotone answers are not injected)", "'a pass completed' is observed through the public Engine::max_depth field pre-loaded with a sentinel"],
     )
+}
+
+/// searches given a non-empty repetition history (the CLI and the plugin never pass an empty one):
+/// `start` with `moves` played, every position on the way (the start included) recorded, the
+/// final position searched at expiry point k
+pub fn history_case(start: &str, moves: &[&str], k: u64) -> (Option<Outcome>, Vec<Divergence>) {
+    let mut rp = Position::from_fen(start).unwrap_or_else(|e| machinery_failure(&format!("history root {start}: {e}")));
+    let Ok(mut board) = parse_board(start) else { return (None, vec![]) };
+    set_case(|| json!({"property": "C11", "case": {"kind": "search-with-history", "start": start, "moves": moves, "k": k}}).to_string());
+    let mut boards = vec![board];
+    for m in moves {
+        let mv = Mv::parse(m).unwrap_or_else(|| machinery_failure(&format!("bad move {m}")));
+        if !rp.legal_moves().contains(&mv) {
+            machinery_failure(&format!("history {start} {moves:?}: {m} is not legal according to the reference"));
+        }
+        rp = rp.make(mv);
+        if !board.move_mut(real_mv(mv)) {
+            return (None, vec![Divergence::new("history-move-refused", format!("{start} {moves:?}: {m} refused"))]);
+        }
+        boards.push(board);
+    }
+    let legal = rp.legal_moves();
+    let r = std::panic::catch_unwind(|| {
+        let mut tf = ThreeFold::new();
+        for b in &boards {
+            let _ = tf.add(*b);
+        }
+        let mut engine = Engine::default();
+        engine.max_depth = SENTINEL;
+        let t = CountingTimeout::new(k);
+        let (mv, score) = engine.search(&board, &tf, &t);
+        Outcome { mv, score, max_depth: engine.max_depth, polls: t.polls.get() }
+    });
+    let what = format!("{start} after {moves:?} (history of {} positions)", boards.len());
+    match r {
+        Err(_) => (None, vec![Divergence::new("search-panics", format!("{what} k={k}"))]),
+        Ok(o) => {
+            let mut d = vec![];
+            match o.mv {
+                Some(m) if !legal.contains(&ref_mv(m)) => d.push(Divergence::new("search-returns-illegal-move", format!("{what} expiry at poll {k}: returned {}", ref_mv(m).uci()))),
+                None if !legal.is_empty() && (o.max_depth != SENTINEL || o.polls <= k) => d.push(Divergence::new("search-returns-no-move-although-a-pass-completed", format!("{what} expiry at poll {k}: pass {} completed (or the search ended by itself), {} legal moves, returned None", o.max_depth, legal.len()))),
+                _ => {}
+            }
+            (Some(o), d)
+        }
+    }
+}
+
+const HISTORY_ROOTS: &[(&str, &[&str])] = &[
+    // two knight-shuffle cycles from the start: the root has occurred three times, its successors twice
+    (START_FEN, &["g1f3", "g8f6", "f3g1", "f6g8", "g1f3", "g8f6", "f3g1", "f6g8"]),
+    // one and a half cycles: the root is a mid-cycle position, one reply repeats, the others do not
+    (START_FEN, &["g1f3", "g8f6", "f3g1", "f6g8", "g1f3", "g8f6"]),
+    (START_FEN, &["b1c3", "b8c6", "c3b1", "c6b8", "b1c3"]),
+    // bare knights: every line shuffles, many successors are in the table
+    ("1n2k3/8/8/8/8/8/8/1N2K3 w - - 0 1", &["b1c3", "b8c6", "c3b1", "c6b8", "b1c3", "b8c6", "c3b1", "c6b8"]),
+    ("1n2k3/8/8/8/8/8/8/1N2K3 w - - 0 1", &["b1a3", "b8a6", "a3b1", "a6b8", "b1a3", "b8a6", "a3b1"]),
+    // a capture is available at the root whose successor cannot have occurred; the quiet alternatives repeat
+    ("4k3/8/8/3p4/4P3/8/8/4K3 w - - 0 1", &["e1d1", "e8d8", "d1e1", "d8e8", "e1d1", "e8d8", "d1e1", "d8e8"]),
+    // rook endgame with a mate available after the shuffle
+    ("7k/8/5K2/8/8/8/8/R7 w - - 0 1", &["a1b1", "h8g8", "b1a1", "g8h8", "a1b1", "h8g8", "b1a1", "g8h8"]),
+];
+
+fn c11_with_history(tier: Tier, report: &Report) -> u64 {
+    let cap = tier.pick(1_500u64, 12_000);
+    let res: Vec<(u64, Vec<(u64, Vec<Divergence>)>)> = HISTORY_ROOTS
+        .par_iter()
+        .map(|(start, moves)| {
+            let mut bad = vec![];
+            let mut runs = 0;
+            let mut k = 0;
+            loop {
+                let (o, d) = history_case(start, moves, k);
+                runs += 1;
+                if !d.is_empty() {
+                    bad.push((k, d));
+                }
+                let Some(o) = o else { break };
+                if o.polls <= k || (o.max_depth != SENTINEL && o.max_depth >= 3) || k >= cap {
+                    break;
+                }
+                k += 1;
+            }
+            (runs, bad)
+        })
+        .collect();
+    let mut runs = 0;
+    for ((start, moves), (r, bad)) in HISTORY_ROOTS.iter().zip(res) {
+        runs += r;
+        for (k, d) in bad {
+            report.record(&d, || json!({"kind": "search-with-history", "start": start, "moves": moves, "k": k}));
+        }
+    }
+    runs
 }
 
 pub fn reuse_case(a: &Position, b: &Position, k: u64) -> Vec<Divergence> {
@@ -1035,9 +1140,68 @@ fn boxed_king_forced_mate_family() -> Vec<Position> {
         .collect()
 }
 
+/// Castling is a mating move: white king e1 and rook h1 / a1 with the right, a white queen and a
+/// second white officer (rook or bishop) anywhere, black king anywhere; kept when the reference
+/// finds the castling move among the mating moves. Both colours.
+fn castling_mate_family(stride: usize) -> Vec<Position> {
+    use refchess::Pc;
+    let mut raw = vec![];
+    let mut i = 0usize;
+    for (rook, right) in [(7u8, 0usize), (0u8, 1usize)] {
+        for q in 0..64u8 {
+            for extra in [None, Some(Pc::R), Some(Pc::B)] {
+                for x in 0..64u8 {
+                    if extra.is_none() && x != 0 {
+                        continue;
+                    }
+                    for bk in 0..64u8 {
+                        i += 1;
+                        if i % stride != 0 {
+                            continue;
+                        }
+                        let mut p = Position::empty();
+                        p.turn = Col::W;
+                        p.full = 1;
+                        let mut men = vec![(4u8, Col::W, Pc::K), (rook, Col::W, Pc::R), (q, Col::W, Pc::Q), (bk, Col::B, Pc::K)];
+                        if let Some(e) = extra {
+                            men.push((x, Col::W, e));
+                        }
+                        let mut ok = true;
+                        for (s, c, pc) in men {
+                            if p.board[s as usize].is_some() {
+                                ok = false;
+                                break;
+                            }
+                            p.board[s as usize] = Some((c, pc));
+                        }
+                        if !ok {
+                            continue;
+                        }
+                        p.rights[right] = true;
+                        raw.push(p);
+                    }
+                }
+            }
+        }
+    }
+    raw.into_par_iter()
+        .filter(|p| p.valid_root().is_ok() && p.mating_moves().iter().any(|m| m.from == 4 && (m.to == 6 || m.to == 2)))
+        .flat_map_iter(|p| {
+            let m = p.mirror();
+            [p, m]
+        })
+        .filter(|p| p.valid_root().is_ok())
+        .collect()
+}
+
 pub fn c12_positions(tier: Tier) -> Vec<Position> {
     use refchess::Pc;
     let mut v = vec![];
+    {
+        let c = castling_mate_family(tier.pick(3, 1));
+        eprintln!("[C12] castling-mate family: {} positions", c.len());
+        v.extend(c);
+    }
 
     // (two exhaustive searches for "in check, one legal move, and it mates" - K+Q/R v K+any piece, and a
     // boxed black king with K+Q/R v K+3P+checker - found no member at all; see the hand-built list)
@@ -1149,7 +1313,7 @@ pub fn run_c12(args: &Args) -> i32 {
         json!({
             "evaluations": runs,
             "distinct_nontrivial": with_mate,
-            "rule": "all KQ-K, KR-K and KP(7th rank)-K positions with either side to move, every 16th (thorough: every 2nd) K+Q v K + black N/R position and all K+P(7th) v K + capturable piece beside the promotion square positions (mates that compete with captures, which the engine iterates first under a mask), the capture-mates that leave only kings and minor pieces (black king in a corner region, blocker, white minor, victim; every 5th quick) the promotion-only mates (pawn on the 7th, two black men beside the black king; every 3rd quick) and the knight-under-promotion mates where the queen promotion to the same square does not mate (one white helper piece anywhere; every 4th quick) selected by the reference, the en-passant edge cases (a double push gives check and en passant is the only defence; an en-passant capture mates) selected from the en-passant families, every scenario root and 22 hand-built mates (three of them: in check with a single legal move that mates) (several mating moves, under-promotion mate, en-passant mate, discovered mate, Black mating), each in both colours and with positional evaluation off and on; each is searched with the smallest k = 32*2^i that lets the first deepening pass complete; every 149th (thorough: 8th) position is also searched at the later expiry points k = 1500, 12000 (thorough: and 100000), where several passes have completed, with the same two implications. Non-trivial = (position, configuration) pairs that have a mate in one AND completed a pass; the rest exercise 'a mate-in-one score is reported only when the move mates'.",
+            "rule": "all KQ-K, KR-K and KP(7th rank)-K positions with either side to move, every 16th (thorough: every 2nd) K+Q v K + black N/R position and all K+P(7th) v K + capturable piece beside the promotion square positions (mates that compete with captures, which the engine iterates first under a mask), the capture-mates that leave only kings and minor pieces (black king in a corner region, blocker, white minor, victim; every 5th quick) the promotion-only mates (pawn on the 7th, two black men beside the black king; every 3rd quick) and the knight-under-promotion mates where the queen promotion to the same square does not mate (one white helper piece anywhere; every 4th quick) selected by the reference, the en-passant edge cases (a double push gives check and en passant is the only defence; an en-passant capture mates) selected from the en-passant families, positions in which castling is a mating move (king e1, rook with its right, queen and optionally a second officer anywhere, black king anywhere; every 3rd quick; selected by the reference), every scenario root and 22 hand-built mates (three of them: in check with a single legal move that mates) (several mating moves, under-promotion mate, en-passant mate, discovered mate, Black mating), each in both colours and with positional evaluation off and on; each is searched with the smallest k = 32*2^i that lets the first deepening pass complete; every 149th (thorough: 8th) position is also searched at the later expiry points k = 1500, 12000 (thorough: and 100000), where several passes have completed, with the same two implications. Non-trivial = (position, configuration) pairs that have a mate in one AND completed a pass; the rest exercise 'a mate-in-one score is reported only when the move mates'.",
             "positions": positions.len(),
             "searches_that_completed_a_pass": completed,
             "searches_at_later_expiry_points": deeper_searches,
@@ -1175,7 +1339,8 @@ fn negate(s: Score) -> Score {
 /// (completed depth -> score) observed on a geometric ladder of expiry points
 fn depth_scores(board: &Board, cap: u64, max_depth: u16) -> Result<BTreeMap<u16, Score>, String> {
     let mut out = BTreeMap::new();
-    let mut k: u64 = 8;
+    // every k up to 48 (cheap roots complete several passes within a few polls), then a geometric ladder
+    let mut k: u64 = 1;
     loop {
         let o = search_k(board, k, false)?;
         if o.max_depth != SENTINEL {
@@ -1188,7 +1353,7 @@ fn depth_scores(board: &Board, cap: u64, max_depth: u16) -> Result<BTreeMap<u16,
             break;
         }
         // ratio ~1.25 so that consecutive depths are rarely skipped
-        k = (k * 5 / 4).max(k + 1);
+        k = if k < 48 { k + 1 } else { (k * 5 / 4).max(k + 1) };
     }
     Ok(out)
 }
@@ -1510,7 +1675,7 @@ pub fn run_c13(args: &Args) -> i32 {
         json!({
             "evaluations": compared,
             "distinct_nontrivial": pairs_with_depth,
-            "rule": "positions of the C11 catalogue plus every 811th (thorough 47th) position of the C12 endgame families and every 37th (thorough 5th) member of the castling family, plus a material-signature family (every multiset q,r,b,n <= 2, p <= 8 worth 1800 +-100 (thorough +-200) against eight weaker sides, both colours, both sides to move, one (thorough three) deterministic placement each), with no promotion move at the root (either colour), one representative per mirror pair; the position and its colour mirror are each searched with empty history at expiry points k = 8, 10, 12, ... (ratio 1.25) up to the cap; the score committed for each completed depth is collected from those runs, and every depth both searches report is compared (score == negated mirror score). evaluations = (pair, depth) comparisons; non-trivial = pairs with at least one common completed depth.",
+            "rule": "positions of the C11 catalogue plus every 811th (thorough 47th) position of the C12 endgame families and every 37th (thorough 5th) member of the castling family, plus a material-signature family (every multiset q,r,b,n <= 2, p <= 8 worth 1800 +-100 (thorough +-200) against eight weaker sides, both colours, both sides to move, one (thorough three) deterministic placement each), with no promotion move at the root (either colour), one representative per mirror pair; the position and its colour mirror are each searched with empty history at expiry points k = 1, 2, ..., 48, 60, 75, ... (ratio 1.25) up to the cap; the score committed for each completed depth is collected from those runs, and every depth both searches report is compared (score == negated mirror score). evaluations = (pair, depth) comparisons; non-trivial = pairs with at least one common completed depth.",
             "mirror_pairs": positions.len(),
             "pairs_by_number_of_depths_compared": by_depth.iter().map(|(k, v)| json!([k, v])).collect::<Vec<_>>(),
             "cap_k": cap, "max_depth_compared": max_depth,
@@ -1524,6 +1689,11 @@ pub fn run_c13(args: &Args) -> i32 {
 
 pub fn replay(prop: &str, case: &Value) -> Vec<Divergence> {
     silence_panics();
+    if case["kind"].as_str() == Some("search-with-history") {
+        let moves: Vec<String> = case["moves"].as_array().map(|a| a.iter().filter_map(|x| x.as_str().map(|s| s.to_string())).collect()).unwrap_or_default();
+        let mv: Vec<&str> = moves.iter().map(|s| s.as_str()).collect();
+        return history_case(case["start"].as_str().unwrap(), &mv, case["k"].as_u64().unwrap()).1;
+    }
     let fen = case["fen"].as_str().unwrap();
     let rp = Position::from_fen(fen).unwrap();
     match prop {
